@@ -65,7 +65,7 @@ def gen_file(r, fi, nblocks, scripts, counter):
         attrs.insert(1, ("data-rev", str(r.randint(1, 8))))
         layout = "line"
         if ext in ("rs", "go", "js") and r.random() < 0.25:
-            layout = r.choice(["shared", "shared-mb", "mltag"])
+            layout = r.choice(["shared", "shared-mb", "mltag", "mltag-late"])
         lines = sb.lines
         if layout.startswith("shared"):
             lines = [FILLER[ext] % (1000 + counter[0])]
@@ -97,12 +97,14 @@ def render(ext, op, blocks, fill):
             prose = "日本語のコメントです — " if b.layout == "shared-mb" else ""
             out.append("/* %s<block %s> */ %s /* </block>%s */" % (prose, render_attrs(b.attrs), b.lines[0], getattr(b, "end_suffix", "")))
             info[b.name] = {"s1": s, "s2": s, "e1": s, "e2": s}
-        else:   # mltag
+        else:   # mltag / mltag-late (the tag opens far to the right, after code; its attributes continue at the left margin)
             s = len(out) + 1
-            out.append("/* <block")
+            late = b.layout == "mltag-late"
+            fill[0] += 1
+            out.append(((FILLER[ext] % fill[0]) + "   /* <block") if late else "/* <block")
             for k, v in b.attrs:
-                out.append("     " + (k if v is None else '%s="%s"' % (k, v)))
-            out.append("   > */")
+                out.append((" " if late else "     ") + (k if v is None else '%s="%s"' % (k, v)))
+            out.append(" > */" if late else "   > */")
             s2 = len(out)
             for l in b.lines:
                 out.append(l)
